@@ -270,6 +270,51 @@ func DrawCirc(t *rapid.T, o CircOpts) Circ {
 	return c
 }
 
+// DrawFold draws a circuit in which every input wire reaches the outputs: a
+// chain g_i = op(g_{i-1}, in_i) over all input wires (mostly XOR/XNOR so that
+// no input is masked, with some AND/OR/INV links), for input signatures far
+// wider than DrawCirc produces (hundreds to thousands of wires).  The last
+// nout gate outputs are the circuit outputs.
+func DrawFold(t *rapid.T, widths []int, nout int) Circ {
+	var c Circ
+	c.In = widths
+	nin := c.NumIn()
+	for i := 0; i < nout; i++ {
+		c.Out = append(c.Out, 1)
+	}
+	ops := []int{ref.XOR, ref.XOR, ref.XOR, ref.XOR, ref.XOR, ref.XOR, ref.XNOR, ref.XNOR,
+		ref.AND, ref.OR, ref.INV}
+	if nin < 2 {
+		c.Gates = append(c.Gates, ref.Gate{ref.INV, 0, 0, nin})
+		for len(c.Gates) < nout {
+			c.Gates = append(c.Gates, ref.Gate{ref.INV, nin + len(c.Gates) - 1, 0, nin + len(c.Gates)})
+		}
+		return c
+	}
+	prev := 0
+	next := 1
+	// Runs of one operator keep the number of draws small.
+	for next < nin || len(c.Gates) < nout {
+		op := ops[rapid.IntRange(0, len(ops)-1).Draw(t, "foldop")]
+		run := rapid.IntRange(1, 64).Draw(t, "foldrun")
+		if op == ref.AND || op == ref.OR || op == ref.INV {
+			run = 1
+		}
+		for k := 0; k < run && (next < nin || len(c.Gates) < nout); k++ {
+			out := nin + len(c.Gates)
+			if op == ref.INV {
+				c.Gates = append(c.Gates, ref.Gate{op, prev, 0, out})
+			} else {
+				in := next % nin
+				next++
+				c.Gates = append(c.Gates, ref.Gate{op, prev, in, out})
+			}
+			prev = out
+		}
+	}
+	return c
+}
+
 // DrawBits draws n bits with a bias to all-zero / all-one vectors.
 func DrawBits(t *rapid.T, n int, label string) []bool {
 	res := make([]bool, n)
